@@ -90,7 +90,7 @@ type c18in struct {
 	EOFData bool     `json:"eof_with_data"`
 	Hard    bool     `json:"hard_error"`
 	Kind    int      `json:"hard_error_kind,omitempty"` // 0 private error value, 1 io.ErrUnexpectedEOF, 2 io.ErrClosedPipe, 3 wrapped io.ErrUnexpectedEOF
-	CbFail  int      `json:"cb_fail"` // -1 none
+	CbFail  int      `json:"cb_fail"`                   // -1 none
 	BufSize int      `json:"initial_buf"`
 	Boxes   []c18box `json:"boxes,omitempty"` // when the stream was built from well-formed boxes
 }
@@ -487,6 +487,9 @@ func runC18(c *lib.Ctx) error {
 		}
 	}
 
+	if err := runRecv(c); err != nil {
+		return err
+	}
 	// run the implementation
 	obs := make([]c18obs, len(ins))
 	hangs := 0
